@@ -184,11 +184,35 @@ func (w *stWorker) frozen(ctx sdk.Context, cid string) string {
 }
 
 // after every event: monitor bookkeeping + C11 oracles.
+// phaseRank orders the phases the way the lifecycle may move: pre-launch < launched < stopped < deleted.
+func phaseRank(ph providertypes.ConsumerPhase) int {
+	switch ph {
+	case providertypes.CONSUMER_PHASE_LAUNCHED:
+		return 2
+	case providertypes.CONSUMER_PHASE_STOPPED:
+		return 3
+	case providertypes.CONSUMER_PHASE_DELETED:
+		return 4
+	}
+	return 1
+}
+
 func (w *stWorker) after(pre *stNode, c *stNode, ev string) []V {
 	p := w.p
 	var vs []V
 	ctx := c.P.Ctx
 	U := p.Cfg.Unbonding
+	// C10 on the cross-chain histories: no event (late timeouts and acknowledgements on closed channels
+	// included) ever moves a consumer backwards in its lifecycle
+	for _, cid := range w.cons {
+		a, b := p.K.GetConsumerPhase(pre.P.Ctx, cid), p.K.GetConsumerPhase(ctx, cid)
+		if a != b {
+			w.stats.Count("edge:" + a.String() + "->" + b.String())
+		}
+		if phaseRank(b) < phaseRank(a) {
+			vs = append(vs, vf("C10", "phase-moved-backwards:"+a.String()+"->"+b.String(), "%s: consumer %s went from %s back to %s", ev, cid, a, b))
+		}
+	}
 	for _, cid := range w.cons {
 		ph := p.K.GetConsumerPhase(ctx, cid)
 		si, stopped := c.Stops[cid]
